@@ -159,5 +159,6 @@ def run(ck, facts, tier):
     rule_vm(ck, facts)
     rule_wasm(ck, facts)
     c08.rule_apply(ck, facts)
-    c08.rule_fast_path(ck, facts)
+    # only the converse clause is this property's: equal layouts keep the buffer (the forward clause is C07/C08's)
+    c08.rule_fast_path(ck, facts, forward=False)
     ck.not_decided("sample-exact continuity across the swap; effects of re-running main (arrays, closures, delay write heads) — run-time histories")
